@@ -27,7 +27,11 @@ Objects == [alg : Algs, t : TCosts, m : MCosts, saltlen : SaltLens, hashlen : Ha
 
 SegAlg(o) == [k |-> "alg", name |-> o.alg]
 SegVer(v) == [k |-> "ver", v |-> v]
-SegPar(m, t, p) == [k |-> "par", m |-> m, t |-> t, p |-> p]
+SegPar(m, t, p) == [k |-> "par", m |-> m, t |-> t, p |-> p, x |-> "none"]
+\* a parameter segment carrying an extra token the parser does not know.  The real parser recognises the segment by
+\* looking for the texts "m=", "t=" and "p=" ANYWHERE in it, so a token like "opt=1" stands in for a missing "t=" as far as
+\* recognition goes; the field itself is still missing and the string must be refused (never crash on the absent field)
+SegParX(m, t, p, x) == [k |-> "par", m |-> m, t |-> t, p |-> p, x |-> x]
 SegB64(ok, n) == [k |-> "b64", ok |-> ok, n |-> n]
 SegEmpty == [k |-> "empty"]
 
@@ -116,6 +120,16 @@ Mutants(o) ==
          [how |-> <<"m = 0">>, segs |-> [e EXCEPT ![4] = SegPar(Num(0), Num(o.t), Num(1))]],
          [how |-> <<"m = 7">>, segs |-> [e EXCEPT ![4] = SegPar(Num(7), Num(o.t), Num(1))]],
          [how |-> <<"m missing">>, segs |-> [e EXCEPT ![4] = SegPar(Absent, Num(o.t), Num(1))]],
+         [how |-> <<"m missing, 'mem=8' present">>, segs |-> [e EXCEPT ![4] = SegParX(Absent, Num(o.t), Num(1), "mem=8")]],
+         [how |-> <<"t missing, 'opt=1' present">>, segs |-> [e EXCEPT ![4] = SegParX(Num(o.m), Absent, Num(1), "opt=1")]],
+         [how |-> <<"t missing, 'salt=0' present">>, segs |-> [e EXCEPT ![4] = SegParX(Num(o.m), Absent, Num(1), "salt=0")]],
+         [how |-> <<"t missing, 'xt=3' present">>, segs |-> [e EXCEPT ![4] = SegParX(Num(o.m), Absent, Num(1), "xt=3")]],
+         [how |-> <<"p missing, 'temp=2' present">>, segs |-> [e EXCEPT ![4] = SegParX(Num(o.m), Num(o.t), Absent, "temp=2")]],
+         [how |-> <<"m and t missing, 'mem=8' and 'opt=1' present">>, segs |-> [e EXCEPT ![4] = SegParX(Absent, Absent, Num(1), "mem=8,opt=1")]],
+         [how |-> <<"all present plus an unknown token">>, segs |-> [e EXCEPT ![4] = SegParX(Num(o.m), Num(o.t), Num(1), "keyid=7")]],
+         [how |-> <<"p huge">>, segs |-> [e EXCEPT ![4] = SegPar(Num(o.m), Num(o.t), Num(1073741824))]],
+         [how |-> <<"p = 4">>, segs |-> [e EXCEPT ![4] = SegPar(Num(o.m), Num(o.t), Num(4))]],
+         [how |-> <<"p = 65536">>, segs |-> [e EXCEPT ![4] = SegPar(Num(o.m), Num(o.t), Num(65536))]],
          [how |-> <<"salt not base64">>, segs |-> [e EXCEPT ![5] = SegB64(FALSE, 0)]],
          [how |-> <<"hash not base64">>, segs |-> [e EXCEPT ![6] = SegB64(FALSE, 0)]],
          [how |-> <<"empty salt">>, segs |-> [e EXCEPT ![5] = SegB64(TRUE, 0)]],
